@@ -1564,8 +1564,8 @@ class ClassicChannel(utils.EventEmitter):
             # We were disconnecting too: the channel is closed, that's what we wanted
             self.disconnection_result.set_result(None)
             self.disconnection_result = None
-        self.emit(self.EVENT_CLOSE)
         self.manager.on_channel_closed(self)
+        self.emit(self.EVENT_CLOSE)
 
     def on_disconnection_response(self, response: L2CAP_Disconnection_Response) -> None:
         if (
@@ -1584,8 +1584,8 @@ class ClassicChannel(utils.EventEmitter):
         if self.disconnection_result:
             self.disconnection_result.set_result(None)
             self.disconnection_result = None
-        self.emit(self.EVENT_CLOSE)
         self.manager.on_channel_closed(self)
+        self.emit(self.EVENT_CLOSE)
 
     def __str__(self) -> str:
         return (
@@ -1744,8 +1744,8 @@ class LeCreditBasedChannel(utils.EventEmitter):
         return await disconnection_result
 
     def abort(self) -> None:
-        if self.state in (self.State.CONNECTED, self.State.DISCONNECTING):
-            self._change_state(self.State.DISCONNECTED)
+        was_open = self.state in (self.State.CONNECTED, self.State.DISCONNECTING)
+        if was_open:
             self.manager.on_channel_closed(self)
         if self.connection_result is not None:
             self.connection_result.cancel()
@@ -1754,6 +1754,8 @@ class LeCreditBasedChannel(utils.EventEmitter):
             self.disconnection_result.set_result(None)
             self.disconnection_result = None
         self.flush_output()
+        if was_open:
+            self._change_state(self.State.DISCONNECTED)
 
     def on_pdu(self, pdu: bytes) -> None:
         if self.state != self.State.CONNECTED:
@@ -1885,12 +1887,12 @@ class LeCreditBasedChannel(utils.EventEmitter):
                 source_cid=request.source_cid,
             )
         )
-        self._change_state(self.State.DISCONNECTED)
         self.manager.on_channel_closed(self)
         if self.disconnection_result is not None:
             self.disconnection_result.set_result(None)
             self.disconnection_result = None
         self.flush_output()
+        self._change_state(self.State.DISCONNECTED)
 
     def on_disconnection_response(self, response: L2CAP_Disconnection_Response) -> None:
         if self.state != self.State.DISCONNECTING:
@@ -1904,11 +1906,11 @@ class LeCreditBasedChannel(utils.EventEmitter):
             logger.warning('unexpected source or destination CID')
             return
 
-        self._change_state(self.State.DISCONNECTED)
         self.manager.on_channel_closed(self)
         if self.disconnection_result:
             self.disconnection_result.set_result(None)
             self.disconnection_result = None
+        self._change_state(self.State.DISCONNECTED)
 
     def on_att_mtu_update(self, mtu: int) -> None:
         self.att_mtu = mtu
